@@ -1,7 +1,7 @@
 """C20 - no input corrupts memory (DESIGN.md section 3, C20).
 
 Monitors (all run the real code of the tree under test on sanitised builds):
-  (b) eleven libFuzzer targets (harness/fuzz_*.c: real program sources #included, boundary functions
+  (b) thirteen libFuzzer targets (harness/fuzz_*.c: real program sources #included, boundary functions
       substituted) seeded with structured corpora, one process per target/shard, -runs=N -seed=VERIF_SEED;
   (c) deterministic extreme inputs (huge lines, 10^5 tokens, deep comments, declared netstring lengths around
       2^31/2^32, every truncation of a valid session) run once through the same targets;
@@ -42,6 +42,8 @@ TARGETS = {
     "send-reports": ("fuzz_send.c", "qmail-send", ("qsutil.o",), None, 12288, True),
     "control": ("fuzz_control.c", None, (), "constmap.o getln.a open.a case.a stralloc.a substdio.a error.a str.a fs.a".split(), 4096, True),
     "cdb": ("fuzz_cdb.c", None, (), "cdb.a error.a str.a".split(), 8192, False),
+    "rspawn-report": ("fuzz_rspawn.c", "qmail-rspawn", ("spawn.o",), None, 2048, True),
+    "lspawn-report": ("fuzz_lspawn.c", "qmail-lspawn", ("spawn.o",), None, 2048, True),
 }
 LENPROBE_OBJS = "token822.o ipalloc.o prioq.o quote.o stralloc.a error.a str.a".split()
 
@@ -169,7 +171,8 @@ def seed_corpus(name, d, n):
         k += 1
     gens = {"smtpd": c20gen.smtp_session, "qmtpd": c20gen.qmtp_session, "qmqpd": c20gen.qmqp_session,
             "pop3d": c20gen.pop3_session, "popup": c20gen.popup_session, "inject822": c20gen.message,
-            "remote-smtp": c20gen.smtp_replies, "control": c20gen.control_file}
+            "remote-smtp": c20gen.smtp_replies, "control": c20gen.control_file,
+            "rspawn-report": c20gen.remote_output, "lspawn-report": c20gen.local_output}
     for i in range(n):
         rng = core.case_rng(PROP, i, "seed-" + name)
         if name in gens:
@@ -231,10 +234,12 @@ def judge_fuzz(res, name, rc, err, artdir, what, argv_note):
     res.evaluations += runs
     d = DONE_RE.search(text)
     if d and what == "fuzz":
-        for key, val in (("libfuzzer_cov_edges", int(d.group(2))), ("libfuzzer_features", int(d.group(3))),
-                         ("corpus_units_final", int(d.group(4)))):
-            dd = res.counters.setdefault(key, {})
-            dd[name] = max(dd.get(name, 0), val) if key != "corpus_units_final" else dd.get(name, 0) + val
+        # coverage figures are per process (shards overlap): keyed target/shard; corpus units are summed per target
+        sh = argv_note.split("shard=")[-1] if "shard=" in argv_note else "0"
+        res.counters.setdefault("libfuzzer_cov_edges", {})["%s/%s" % (name, sh)] = int(d.group(2))
+        res.counters.setdefault("libfuzzer_features", {})["%s/%s" % (name, sh)] = int(d.group(3))
+        dd = res.counters.setdefault("corpus_units_final", {})
+        dd[name] = dd.get(name, 0) + int(d.group(4))
         res.distinct_extra += int(d.group(4))         # corpus units: distinct inputs, each kept for new coverage
     if rc == 0:
         return True
@@ -257,7 +262,10 @@ def judge_fuzz(res, name, rc, err, artdir, what, argv_note):
     start = min(x for x in (i, j, len(text)) if x >= 0)
     wit["stderr"] = text[max(0, start - 200):start + 3500]
     um = re.search(r"NQV-UNDOCUMENTED-EXIT \S+ (\S+)", text)
-    if um:
+    vm = re.search(r"NQV-VIOLATION (\S+) (.*)", text)
+    if vm:
+        res.violate("C20/%s" % vm.group(1), "harness monitor: %s" % vm.group(2)[:200], wit)
+    elif um:
         res.violate("C20/sanitizer/%s/exit-status/%s" % (name, um.group(1).replace("status=", "")),
                     "exit status outside the documented set", wit)
     elif "ERROR: libFuzzer: timeout" in text:
@@ -321,12 +329,13 @@ def job_fuzz(bdir, binary, name, home, corpus_src, runs, seedval, shard):
 
 SELECTORS = {"smtpd": (0, 1, 0x34, 0xc2), "qmtpd": (0, 1, 0x24, 0x88), "qmqpd": (0, 1, 0x82), "pop3d": (0, 1, 2), "popup": (0, 1, 4, 8, 12),
              "inject822": (0, 1, 0x42, 0xb9, 0x7c), "remote-smtp": (0, 1, 0x1c, 0x12), "send-reports": (0, 1, 2, 3, 6, 0x0f),
-             "control": (0, 1, 2, 3)}
+             "control": (0, 1, 2, 3), "rspawn-report": (0, 4, 5, 6), "lspawn-report": (0, 100, 111, 200)}
 
 
 TRUNC_GENS = {"smtpd": c20gen.smtp_session, "qmtpd": c20gen.qmtp_session, "qmqpd": c20gen.qmqp_session, "pop3d": c20gen.pop3_session,
               "popup": c20gen.popup_session, "inject822": c20gen.message, "remote-smtp": c20gen.smtp_replies,
-              "control": c20gen.control_file, "send-reports": lambda r: c20gen.reports(r, 10)}
+              "control": c20gen.control_file, "send-reports": lambda r: c20gen.reports(r, 10),
+              "rspawn-report": c20gen.remote_output, "lspawn-report": c20gen.local_output}
 
 
 def job_extremes(bdir, binary, name, home, ntrunc=0, group=None, longhaul=False):
@@ -800,7 +809,8 @@ def main(tier):
     shard_runs = 200000 if quick else 1250000
     nseeds = 150 if quick else 400
     jobs = []
-    slow_first = ["inject822", "pop3d", "qmtpd", "remote-smtp", "control", "smtpd", "send-reports", "qmqpd", "cdb", "popup", "dns"]
+    slow_first = ["inject822", "pop3d", "qmtpd", "remote-smtp", "control", "smtpd", "send-reports", "qmqpd", "cdb", "popup", "dns",
+                  "rspawn-report", "lspawn-report"]
     for name in slow_first:
         if name not in bins:
             continue
